@@ -197,20 +197,15 @@ def statement_family():
     # else -- an implicit invocation, an instance invocation, a function invocation; also parenthesised, as an operand of
     # an operator, and as an argument of an argument.  The keyword-less forms take the same arguments.
     g = ('ncall', 'NS', 'g', [])
-    args = [('a', g), ('b', ('icall', V('y'), 'op', [])), ('c', ('fcall', 'f', [])), ('d', ('grp', ('ncall', 'ARCH', 'h', [('p', I(1))]))),
-            ('e', ('ncall', 'NS', 'g', [('p', ('ncall', 'EE', 'b', [('q', g)])), ('r', ('icall', V('y'), 'op', [('s', g)]))])),
-            ('f', ('bin', '+', g, I(1)))]
+    args = [('a', g), ('b', ('icall', V('y'), 'op', [('s', g)])), ('c', ('fcall', 'f', [])),
+            ('d', ('grp', ('ncall', 'ARCH', 'h', [('p', g)]))), ('e', ('bin', '+', g, I(1)))]
     for kw, nm, mk in (('bridge', 'bridge', lambda ps: ('ncall', 'EE', 'b', ps)),
                        ('transform', 'transform_class', lambda ps: ('ncall', 'K', 'cop', ps)),
                        ('transform', 'transform_instance', lambda ps: ('icall', V('x'), 'op', ps)),
-                       ('send', 'send', lambda ps: ('ncall', 'Port', 'msg', ps)),
-                       (None, 'implicit', lambda ps: ('ncall', 'NS', 'g', ps)),
-                       (None, 'function', lambda ps: ('fcall', 'f', ps))):
+                       ('send', 'send', lambda ps: ('ncall', 'Port', 'msg', ps))):
         add(nm + '_call_invocation_args', ('call', kw, mk(args)))
-        if kw:
-            add(nm + '_assign_invocation_args', ('callassign', kw, V('v'), mk(args)))
-        else:
-            add(nm + '_assign_invocation_args', ('assign', V('v'), mk(args), False))
+        add(nm + '_assign_invocation_args', ('callassign', kw, V('v'), mk(args)))
+    add('implicit_assign_invocation_args', ('assign', V('v'), ('ncall', 'NS', 'g', args), False))
     return S
 
 
